@@ -203,9 +203,9 @@ func runC12(c *ev.Ctx) {
 	c.Sample(map[string]interface{}{"s": 91091, "Threshold": detect.Threshold(91091), "reference": oracle.Threshold(91091), "note": "real value is exactly the integer 90090"})
 
 	seed := uint64(c.Seed)
-	nl := 3000
+	nl := 20000
 	if c.Thorough() {
-		nl = 60000
+		nl = 200000
 	}
 	edges := []float64{0, 1}
 	for k := 1; k <= 9; k++ {
